@@ -69,7 +69,7 @@ func genBase(r *lib.Rng, nconn int, concrete bool, clean bool) *base {
 	b := &base{}
 	badH := func(n, d int) bool { return !clean && r.Chance(n, d) }
 	b.in = pickTy(r, concrete)
-	if !concrete && r.Chance(1, 4) {
+	if !concrete && r.Chance(2, 5) {
 		b.state = 1 + r.Intn(2)
 	}
 	nn := r.Range(2, 5)
@@ -112,13 +112,13 @@ func genBase(r *lib.Rng, nconn int, concrete bool, clean bool) *base {
 				st = 1 + r.Intn(2)
 			}
 			o.Pre = &H{State: st, Ty: o.In}
-			if badH(1, 6) {
+			if badH(1, 4) {
 				o.Pre.Ty = pickTy(r, false)
 			}
 		}
 		if b.state != 0 && r.Chance(1, 4) {
 			o.Post = &H{State: b.state, Ty: o.Out}
-			if badH(1, 6) {
+			if badH(1, 4) {
 				o.Post.Ty = pickTy(r, false)
 			}
 		}
@@ -353,6 +353,9 @@ func (engine) Generate(r *lib.Rng, tier string, i int) any {
 		return c
 	}
 	// random stream
+	if r.Chance(1, 10) {
+		return genPendingCluster(r)
+	}
 	concrete := r.Chance(1, 4)
 	b := genBase(r, r.Range(2, rmax), concrete, r.Chance(1, 2))
 	nodes, conns := b.withIDs()
@@ -443,4 +446,70 @@ func repairOrder(ops []Op) []Op {
 		out = append(out, o)
 	}
 	return out
+}
+
+// A cluster of untyped passthrough nodes joined by pending edges, one of them typed by a
+// branch (usually one without end nodes), another one by an edge from a typed producer,
+// consumers behind it.  The two types are related by Implements more often than not, so
+// that the inferred types (and acceptance) would depend on the order in which the types
+// spread through the cluster if they ever met in one update (defect F-C07d).
+func genPendingCluster(r *lib.Rng) *Case {
+	rel := [][2]string{{"I2", "T1"}, {"T1", "I2"}, {"any", "T1"}, {"T1", "any"}, {"I2", "I1"}, {"I1", "I2"},
+		{"any", "I2"}, {"I2", "T2"}, {"T2", "I2"}, {"T1", "T1"}, {"T1", "T2"}, {"any", "M"}}
+	pr := rel[r.Intn(len(rel))]
+	bt, et := pr[0], pr[1] // branch condition type, type of the producer feeding the cluster
+	np := r.Range(2, 4)
+	c := &Case{In: et, Out: "T1", Salt: r.Intn(7), Src: "cluster"}
+	id := 0
+	add := func(o Op) {
+		o.ID = id
+		id++
+		c.Ops = append(c.Ops, o)
+	}
+	first, last := 2, 2+np-1
+	for k := first; k <= last; k++ {
+		add(Op{K: "pass", Key: k})
+	}
+	cons := last + 1 // consumer behind the cluster
+	consIn := []string{"T1", "T2", "I2", "any", et, bt}[r.Intn(6)]
+	add(Op{K: "node", Key: cons, In: consIn, Out: "T1"})
+	side := cons + 1
+	add(Op{K: "node", Key: side, In: et, Out: "T1"})
+	if r.Chance(1, 2) {
+		add(Op{K: "edge", S: 0, E: side}) // the key START enters toValidateMap before the cluster's keys
+	}
+	// pending edges inside the cluster: a path in a random direction per edge, plus maybe a chord
+	perm := r.Perm(np)
+	for i := 0; i+1 < np; i++ {
+		a, b := first+perm[i], first+perm[i+1]
+		if r.Chance(1, 2) {
+			a, b = b, a
+		}
+		add(Op{K: "edge", S: a, E: b})
+	}
+	if np > 2 && r.Chance(1, 3) {
+		add(Op{K: "edge", S: first + perm[0], E: first + perm[np-1]})
+	}
+	bn, en := first+r.Intn(np), first+r.Intn(np)
+	br := Op{K: "branch", S: bn, Ty: bt}
+	if r.Chance(1, 4) {
+		br.Ends = []int{cons, 1}
+		br.Choice = []int{cons}
+	}
+	feed := Op{K: "edge", S: 0, E: en}
+	if r.Chance(3, 4) {
+		add(br)
+		add(feed)
+	} else {
+		add(feed)
+		add(br)
+	}
+	out := first + r.Intn(np)
+	add(Op{K: "edge", S: out, E: cons})
+	add(Op{K: "edge", S: cons, E: 1})
+	if r.Chance(1, 2) {
+		add(Op{K: "edge", S: side, E: 1})
+	}
+	add(Op{K: "compile"})
+	return c
 }
